@@ -24,6 +24,16 @@
   (`cts[i].Scale = ResidualParameters.DefaultScale()`), so "announced scale" holds by construction;
   whether the message is consistent with that scale is exactly the measured precision.
   That `EvaluateNew` of `mod1` consumes `Depth()` levels is taken from the tie line `stages`.
+
+  DEFECTS of the code exhibited by the harness and mirrored here (model follows the code):
+  * grouped depth splits (`Levels[i] > 1`): one `Rescale` per matrix instead of per group —
+    `output_level_grouped_s2c`, `output_level_counterexample`, `grouped_c2s_errors`
+    (probes `output_level_scale`, `bootstrap_precision`, `grouped_split_inverse`; key C18-grouped-split-rescale);
+  * a Galois key for the identity automorphism is generated for matrices with two diagonals —
+    `keys_exact_counterexample` (probe `no_identity_galois_key`);
+  * `GenEvaluationKeys` panics for an accepted literal without auxiliary primes —
+    `genEvaluationKeys_panics_iff` (probe `no_p_keygen`);
+  * `Evaluator.ShallowCopy` drops `xPow2InvN1` (not modelled; probe `shallowcopy_matches`).
 -/
 import Lattigo.Proofs.BootstrapRot
 
